@@ -21,7 +21,7 @@ func init() {
 		Rule: "seeded (seed, 32-byte blind incl. all-zero and all-0xff, context in {nil, empty, 1 byte, 200 bytes}, message) and all pairs from a pool of 6 blinds. Oracle: blinded key bytes == encode(k*A) with k = int_le(SHA-512(blind||0x00||ctx)[0:32]) mod L computed with crypto/sha512 and the math/big Edwards model; " +
 			"BlindKeySignWithContext is deterministic, its signature verifies under the blinded key with crypto/ed25519.Verify and with this package's Verify and not under the original key; Unblind(Blind(A)) == A == Blind(Unblind(A)); two blindings commute; another blind or another context gives another key. Histories of 14 consecutive calls over related inputs (two keys, one-bit neighbours, repeats, nil/empty context) with key, blind and context in buffers refilled in place, each compared with the stateless reference. " +
 			"distinct_nontrivial = distinct (blind class, context length, message length) keys",
-		Floors:      []string{"blinded_key_equals_reference", "signature_verifies_std_and_fork", "signature_deterministic", "unblind_inverts", "commutes", "blind_separation", "context_separation", "signature_fails_under_original", "arguments_share_one_buffer", "history_calls_agree_with_reference"},
+		Floors:      []string{"blinded_key_equals_reference", "signature_verifies_std_and_fork", "signature_deterministic", "unblind_inverts", "commutes", "blind_separation", "context_separation", "signature_fails_under_original", "arguments_share_one_buffer", "history_calls_agree_with_reference", "long_contexts"},
 		Assumptions: []string{"honest public keys lie in the prime-order subgroup", "crypto/ed25519 is the standard verifier"},
 		Run:         runC15,
 	})
@@ -169,6 +169,11 @@ func runC15(c *core.Ctx) {
 			ctx = r.Bytes(1)
 		case 3:
 			ctx = r.Bytes(200)
+		}
+		if i%16 == 11 {
+			// long contexts: around the sizes at which an implementation might switch from one buffer to streaming
+			ctx = r.Bytes(r.Of(63, 64, 95, 96, 127, 128, 1023, 1024, 2015, 2016, 2017, 2047, 2048, 4096, 65536, 1<<20))
+			c.Class("long_contexts")
 		}
 		msg := r.Bytes(r.IntN(r.Of(1, 40, 300)))
 		c.Eval(1)
